@@ -1,7 +1,7 @@
 CONSTANTS
   Mode = "bytes"
   Alpha = {33, 36, 58, 126, 43, 45, 38, 124, 94, 61, 60, 62, 42, 47, 37}
-  MaxLen = 3
+  MaxLen = 4
   First = {33, 36, 58, 126, 43, 45, 38, 124, 94, 61, 60, 62, 42, 47, 37}
 INIT Init
 NEXT Next
